@@ -74,14 +74,14 @@ Definition spath (w : world) (r i : id) (p : list N) : Prop := exists q, dpath w
 
 Definition model_at (w : world) (m : N) : option model := nth_opt (w_models w) (N.to_nat m).
 
-Definition Reach (w : world) (m : N) (i : id) : Prop :=
+Definition MReach (w : world) (m : N) (i : id) : Prop :=
   exists x, model_at w m = Some x /\ reach w (m_root x) i.
 Definition SpecPath (w : world) (m : N) (i : id) (p : list N) : Prop :=
   exists x, model_at w m = Some x /\ spath w (m_root x) i p.
 
 (* ---------- C04 *)
 Definition PathSet (w : world) (m : N) (p : list N) (i : id) : Prop :=
-  Reach w m i /\ identifiable w i = true /\ SpecPath w m i p.
+  MReach w m i /\ identifiable w i = true /\ SpecPath w m i p.
 
 Definition IndexExact (w : world) (m : N) : Prop :=
   forall x, model_at w m = Some x ->
@@ -100,7 +100,7 @@ Definition origins_of (x : model) (p : list N) : list id :=
 
 (* r is a reference element of model m whose text is the string p *)
 Definition RefSet (w : world) (m : N) (p : list N) (r : id) : Prop :=
-  Reach w m r /\ ref_text w r = Some p.
+  MReach w m r /\ ref_text w r = Some p.
 
 (* "Permutation l [r | RefSet w m p r]" without choosing an enumeration order of the tree:
    l is duplicate-free and its members are exactly the references with text p *)
@@ -112,26 +112,30 @@ Definition OriginsTidy (w : world) (m : N) : Prop :=
   forall x, model_at w m = Some x ->
   NoDupKeys (m_origins x) /\ (forall p l, In (p, l) (m_origins x) -> l <> []).
 
-(* ---------- structural facts about the heap (discharged by C03's TreeInv) *)
+(* ---------- structural facts about the heap.  This record is the ONLY thing the C04/C05 proofs assume about the
+   shape of the heap; it is a consequence of C03's `TreeInv w` (Tree/Inv.v: Core w /\ NoOrphan w) — the bridge lemma
+   is Tree/IndexProofsBridge.v. *)
+(* the parent chain of i has exactly h element links before it ends (in PNone or PModel): finite = acyclic *)
+Inductive pdepth (w : world) : id -> nat -> Prop :=
+| pd_top i n : w_nodes w i = Some n -> (forall p, n_parent n <> PElem p) -> pdepth w i 0
+| pd_step i n p h : w_nodes w i = Some n -> n_parent n = PElem p -> pdepth w p h -> pdepth w i (S h).
+
 Definition elem_ids (l : list citem) : list id :=
   flat_map (fun it => match it with CElem c => [c] | CData _ => [] end) l.
 
 Record TreeFacts (w : world) : Prop := {
-  (* every listed child exists and points back to the node that lists it *)
-  tf_child_parent : forall p n c, w_nodes w p = Some n -> In (CElem c) (n_content n) ->
-                    exists cn, w_nodes w c = Some cn /\ n_parent cn = PElem p;
-  (* nobody is listed twice by one parent (with tf_child_parent: nobody is listed twice at all) *)
+  (* every listed child exists and points back to the node that lists it (for every allocated lister) *)
+  tf_up : forall p c, child_of w p c -> exists cn, w_nodes w c = Some cn /\ n_parent cn = PElem p;
+  (* nobody is listed twice by one parent (with tf_up: nobody is listed twice at all) *)
   tf_nodup : forall p n, w_nodes w p = Some n -> NoDup (elem_ids (n_content n));
   (* a node with an element parent is listed by it *)
-  tf_parent_child : forall c cn p, w_nodes w c = Some cn -> n_parent cn = PElem p -> child_of w p c;
+  tf_down : forall c cn p, w_nodes w c = Some cn -> n_parent cn = PElem p -> child_of w p c;
   (* model roots *)
-  tf_root : forall m x, model_at w m = Some x ->
-            exists n, w_nodes w (m_root x) = Some n /\ n_parent n = PModel m;
+  tf_roots : forall m x, model_at w m = Some x -> exists n, w_nodes w (m_root x) = Some n /\ n_parent n = PModel m;
   tf_pmodel : forall i n m, w_nodes w i = Some n -> n_parent n = PModel m ->
               exists x, model_at w m = Some x /\ m_root x = i;
-  (* parent chains end: every node whose parent is set lies below a model root *)
-  tf_attached : forall i n, w_nodes w i = Some n -> n_parent n <> PNone ->
-                exists m, Reach w m i;
+  (* parent chains are finite *)
+  tf_depth : forall i n, w_nodes w i = Some n -> exists h, pdepth w i h;
   (* allocation *)
   tf_alloc : forall i n, w_nodes w i = Some n -> i < w_next w
 }.
